@@ -2256,13 +2256,19 @@ class BindParameter(roles.InElementRole, KeyedColumnElement[_T]):
         if found:
             return (id_, self.__class__)
 
+        type_key = self.type._static_cache_key
+        if type_key is NO_CACHE:
+            # e.g. a TypeDecorator with cache_ok = False
+            anon_map[NO_CACHE] = True
+            return None
+
         if bindparams is not None:
             bindparams.append(self)
 
         return (
             id_,
             self.__class__,
-            self.type._static_cache_key,
+            type_key,
             (
                 anon_map[self._anon_map_key]
                 if self._anon_map_key is not None
